@@ -272,6 +272,77 @@ def branch_edges(fn, br):
     t, f = br.targets[0], br.targets[1]
     return (d, f, t) if neg else (d, t, f)
 
+def truth_edges(fn, br):
+    """for a conditional br that tests a value against zero / null / false: (tested value, label taken when the value is
+    non-zero, label taken when it is zero).  Handles `icmp ne/eq X, 0|null`, `trunc X to i1` (C bool), a bare i1, and
+    xor-negations.  None for comparisons with other constants."""
+    if br.op != 'br' or not br.ops or len(br.targets) != 2: return None
+    v = br.ops[0]; t, f = br.targets[0], br.targets[1]
+    for _ in range(8):
+        d = fn.def_of(v)
+        if d is None: return (v, t, f)
+        if d.op == 'xor' and d.ops[1] == ('int', 1): v = d.ops[0]; t, f = f, t; continue
+        if d.op == 'trunc': return (d.ops[0], t, f)
+        if d.op == 'icmp' and d.pred in ('ne', 'eq'):
+            a, b = d.ops
+            if b in (('int', 0), ('null',)): x = a
+            elif a in (('int', 0), ('null',)): x = b
+            else: return None
+            return (x, t, f) if d.pred == 'ne' else (x, f, t)
+        if d.op == 'icmp': return None
+        return (v, t, f)
+    return None
+
+def immutable_flag_filter(fn, at, res=None):
+    """edge filter for CFG walks that start at instruction `at`: when `at` is dominated by a known edge of a branch on a
+    local variable that is assigned exactly once (bool write_header = ...), later branches on the same variable can only
+    take the same edge.  Returns (filter, facts)."""
+    res = res or Resolver(fn)
+    stores = {}
+    for x in fn.ins:
+        if x.op == 'store':
+            l = res.loc(x.ops[1])
+            if l[0] == 'local': stores[l] = stores.get(l, 0) + 1
+    def flag_of(br):
+        te = truth_edges(fn, br)
+        if te is None: return None
+        d = fn.def_of(flow.int_origin(fn, te[0]))
+        if d is None or d.op != 'load': return None
+        l = res.loc(d.ops[0])
+        if l[0] != 'local' or stores.get(l, 0) != 1: return None
+        return (l, te[1], te[2])
+    cfg = CFGless(fn)
+    facts = {}
+    for b in fn.blocks:
+        br = b.ins[-1] if b.ins else None
+        if br is None or br.op != 'br' or len(br.targets) != 2: continue
+        fl = flag_of(br)
+        if fl is None: continue
+        l, nz, z = fl
+        for lab, val in ((nz, True), (z, False)):
+            tb = fn.bmap[lab]
+            if lab == (z if val else nz): continue
+            if cfg.dominates(tb, at.blk) and all(p is b for p in tb.pred): facts[l] = val
+    def filt(b, t):
+        br = b.ins[-1]
+        if br.op != 'br' or len(br.targets) != 2: return True
+        fl = flag_of(br)
+        if fl is None or fl[0] not in facts: return True
+        l, nz, z = fl
+        if nz == z: return True
+        want = nz if facts[l] else z
+        return t.name == want
+    return filt, facts
+
+class CFGless:
+    """plain dominators of a function (no cut), cached on the function object"""
+    def __init__(s, fn):
+        c = getattr(fn, '_gu_cfg', None)
+        if c is None:
+            c = ir.CFG(fn); fn._gu_cfg = c
+        s.c = c
+    def dominates(s, a, b): return s.c.dominates(a, b)
+
 def edge_dominates(cfg, fn, br, label, ins):
     """the CFG edge br.blk -> label dominates instruction ins (every path to ins takes that edge)"""
     tb = fn.bmap[label]
